@@ -14,8 +14,10 @@ import sys
 LEVEL = 'translation_validation'
 RULE = ('graphs: nodes 0..n-1, entry 0; quick = every digraph with <= 3 nodes (self loops included) and '
         'every 4-node digraph without self loops in which all nodes are reachable (oracle), a seeded sample of '
-        'those plus random graphs with 5..40 nodes through coqc; thorough = all 4-node digraphs with self loops, '
-        'all 5-node loop-free digraphs in canonical form (entry fixed), random graphs up to 40 nodes. '
+        'those plus random graphs with 5..40 nodes through coqc; thorough = all 4-node digraphs with self loops and a third '
+        '(by seed) of the 5-node loop-free digraphs in canonical form (entry fixed) through the oracle, seeded samples of '
+        'them (6000 + 3000) and 400 random graphs up to 40 nodes through coqc; post-dominator rows go through coqc for '
+        'n <= 12 only (oracle above). '
         'Post dominators: every sink node of the graph as exit. non-trivial = distinct graph with >= 3 nodes, all '
         'reachable, in which at least one node has an immediate dominator different from the entry or a '
         'non-empty dominance frontier')
@@ -380,8 +382,8 @@ def graph_sets(ctx, deep):
             s = succ_lists(5, [p for i, p in enumerate(pairs) if mask >> i & 1])
             if s[0] and all_reachable(s) and canonical5(s):
                 five.append(s)
-    if deep:
-        coq = small + four + five + rnd
+    if deep:     # coqc budget: samples of the big exhaustive families, everything goes to the oracle
+        coq = small + rng.sample(four, min(6000, len(four))) + rng.sample(five, min(3000, len(five))) + rnd
     else:
         sample = rng.sample(four, min(500, len(four)))
         coq = small + sample + rnd
